@@ -84,6 +84,10 @@ pub enum Confirm {
 pub struct ConfirmSmoother {
     expected: u64,
     out_of_order: HashMap<u64, Confirm>,
+
+    // Delivery tags are 64-bit: once `u64::max_value()` itself has been handed out
+    // there is no next tag to expect.
+    exhausted: bool,
 }
 
 impl Default for ConfirmSmoother {
@@ -105,6 +109,15 @@ impl ConfirmSmoother {
         ConfirmSmoother {
             expected,
             out_of_order: HashMap::new(),
+            exhausted: false,
+        }
+    }
+
+    // Move on to the tag after `expected`, if there is one.
+    fn advance(&mut self) {
+        match self.expected.checked_add(1) {
+            Some(next) => self.expected = next,
+            None => self.exhausted = true,
         }
     }
 
@@ -173,7 +186,8 @@ where
     type Item = Confirm;
 
     fn next(&mut self) -> Option<Confirm> {
-        if self.done {
+        if self.done || self.parent.exhausted {
+            self.done = true;
             return None;
         }
 
@@ -182,7 +196,7 @@ where
         if payload.delivery_tag == self.parent.expected {
             // exact match - we'll return this tag, and set next to an out-of-order
             // entry for the next tag if we had one
-            self.parent.expected += 1;
+            self.parent.advance();
             self.next = self.parent.out_of_order.remove(&self.parent.expected);
             return Some((self.to_confirm)(payload.delivery_tag));
         }
@@ -196,7 +210,7 @@ where
                     Some(earlier) => earlier,
                     None => (self.to_confirm)(self.parent.expected),
                 };
-                self.parent.expected += 1;
+                self.parent.advance();
                 return Some(ret);
             } else {
                 // if it's _not_ multiple, stash it away in out_of_order
@@ -213,7 +227,7 @@ where
             Some(next) => {
                 // self.next is Some() only if a previous call to next() hit the tag==expected
                 // case _and_ out_of_order held a confirm for the next expected tag
-                self.parent.expected += 1;
+                self.parent.advance();
                 self.next = self.parent.out_of_order.remove(&self.parent.expected);
                 Some(next)
             }
